@@ -133,7 +133,8 @@ pub fn check_l2(vm: &mut VM, prog: &Program, layout: &Layout) -> (L2Verdict, Str
     // stop reason
     let stop_ok = match (&rr.stop, &ro.stop) {
         (Stop::Halt, RStop::Halt) => true,
-        (Stop::RetWithoutCall, RStop::InternalError(e)) => e.contains("ret is encountered without corresponding call"),
+        // the interpreter refuses the ret (whatever its wording); the trace comparison below ties it to the right instruction
+        (Stop::RetWithoutCall, RStop::InternalError(e)) => e != "no start" && !(e.starts_with("index ") && e.ends_with(" outside the code")),
         (Stop::StepLimit, _) => true,
         _ => false,
     };
@@ -275,7 +276,7 @@ pub fn eval_cli(c: &C8Case) -> CaseOutcome {
         Ok(t) => crate::c17::blank_lines(&t),
         Err(e) => return CaseOutcome::Fail { key: "c08|cli|unparsable-output".into(), what: e, replay },
     };
-    if toks != exp {
+    if !events_match(&exp, &toks) {
         return CaseOutcome::Fail { key: "c08|cli|marker-trace".into(), what: crate::c17::first_diff(&exp, &toks), replay };
     }
     let f = features(&prog, &rr.trace, &flat);
@@ -501,7 +502,7 @@ pub fn eof_family(ctx: &Ctx, owner: &str) {
                 return CaseOutcome::Fail { key: format!("{}|eof-shapes|abnormal-exit", owner), what: format!("program ending '{}'{}: status {:?} {}", what, if *interpreted { " (-i)" } else { "" }, out.status, out.err_str().lines().next().unwrap_or("")), replay };
             }
             match tokenize(&out.stdout) {
-                Ok(t) if t == exp => CaseOutcome::Pass { nontrivial: true, classes: vec![format!("{}/eof-shapes", owner)], digest: fnv_str(&rendered.text) ^ *interpreted as u64 },
+                Ok(t) if events_match(&exp, &t) => CaseOutcome::Pass { nontrivial: true, classes: vec![format!("{}/eof-shapes", owner)], digest: fnv_str(&rendered.text) ^ *interpreted as u64 },
                 Ok(t) => CaseOutcome::Fail { key: format!("{}|eof-shapes|events", owner), what: format!("program ending '{}'{}: {}", what, if *interpreted { " (-i)" } else { "" }, crate::c17::first_diff(&exp, &t)), replay },
                 Err(e) => CaseOutcome::Fail { key: format!("{}|eof-shapes|output", owner), what: format!("program ending '{}': {}", what, e.chars().take(200).collect::<String>()), replay },
             }
@@ -567,7 +568,7 @@ fn deep_family(ctx: &Ctx) {
                 CaseOutcome::Fail { key: format!("c08|deep|{}|abnormal-exit", name), what: format!("{} n={}: status {:?} {}", name, n, out.status, out.err_str().lines().next().unwrap_or("")), replay }
             } else {
                 match tokenize(&out.stdout) {
-                    Ok(t) if crate::c17::blank_lines(&t) == exp => CaseOutcome::Pass { nontrivial: *n >= 100, classes: vec![format!("c08/deep/{}", name)], digest: fnv_str(&rendered.text) },
+                    Ok(t) if events_match(&exp, &crate::c17::blank_lines(&t)) => CaseOutcome::Pass { nontrivial: *n >= 100, classes: vec![format!("c08/deep/{}", name)], digest: fnv_str(&rendered.text) },
                     Ok(t) => CaseOutcome::Fail { key: format!("c08|deep|{}|final-state", name), what: format!("{} n={}: {}", name, n, crate::c17::first_diff(&exp, &crate::c17::blank_lines(&t))), replay },
                     Err(e) => CaseOutcome::Fail { key: format!("c08|deep|{}|output", name), what: format!("{} n={}: {}", name, n, e.chars().take(200).collect::<String>()), replay },
                 }
